@@ -160,7 +160,24 @@ def r92(ctx, rep, ucr, pruned):
                 ctxs = enclosing_context(n.ast, f.node)
                 tests = [cfg.node_of(x[2]) for x in ctxs if x[0] in ("if-true", "if-false")]
                 if tests:
-                    guards.setdefault(exc_name(n.ast.exc), set()).add(tests[-1] if False else tests[0])
+                    # nested ifs spell a conjunction: the stop test starts at the
+                    # outermost enclosing test that still examines the result
+                    # of this evaluation
+                    rd = cfg.reaching_defs()
+                    g0 = tests[0]
+                    for t_ in tests[1:]:
+                        tn = cfg.nodes[t_]
+                        names_ = [x.id for x in ast.walk(tn.expr()) if isinstance(x, ast.Name) and isinstance(x.ctx, ast.Load)]
+                        dep = False
+                        for nm in names_:
+                            ds = rd.get(t_, {}).get(nm)
+                            if ds and cfg.entry not in ds and all(cfg.dominates(c, d) for d in ds):
+                                dep = True
+                        if dep:
+                            g0 = t_
+                        else:
+                            break
+                    guards.setdefault(exc_name(n.ast.exc), set()).add(g0)
         for cls in ("TargetSuccess", "FeasibleSuccess"):
             desc = f"{f.local}:{ev.line} evaluation followed by the {cls} test"
             if cls not in guards:
